@@ -2487,6 +2487,7 @@ int32 matrixValidateCertsExt(psPool_t *pool, psX509Cert_t *subjectCerts,
  */
         while (ic->next != NULL)
         {
+            sc->next->authStatus = PS_FALSE; /* not authenticated yet */
             if ((rc = psX509AuthenticateCert(pool, sc, ic, foundIssuer, hwCtx,
                      poolUserPtr)) < PS_SUCCESS)
             {
@@ -2506,6 +2507,7 @@ int32 matrixValidateCertsExt(psPool_t *pool, psX509Cert_t *subjectCerts,
 /*
         Test using the parent-most in chain as the subject
  */
+        sc->next->authStatus = PS_FALSE; /* not authenticated yet */
         if ((rc = psX509AuthenticateCert(pool, sc, ic, foundIssuer, hwCtx,
                  poolUserPtr)) < PS_SUCCESS)
         {
@@ -2545,14 +2547,19 @@ int32 matrixValidateCertsExt(psPool_t *pool, psX509Cert_t *subjectCerts,
 
             if (opts->flags & VCERTS_FLAG_REVALIDATE_DATES)
             {
-                /* Re-validate the date of the issuer cert also. */
-                rc = validateDateRange(ic);
+                /* Re-validate the date of the issuer cert also.  The issuer
+                   is a trust anchor shared with other sessions: do not
+                   store the result in it. */
+                uint32 icDateFlags = 0;
+
+                rc = psX509DateRangeFlags(ic, &icDateFlags);
                 if (rc < 0)
                 {
                     psTraceCrypto("Could not parse certificate date\n");
                     return PS_PARSE_FAIL;
                 }
-                if (ic->authFailFlags & PS_CERT_AUTH_FAIL_DATE_FLAG)
+                if ((ic->authFailFlags | icDateFlags) &
+                    PS_CERT_AUTH_FAIL_DATE_FLAG)
                 {
                     psTraceCrypto("Issuer cert out of date\n");
                     sc->authStatus = PS_CERT_AUTH_FAIL_EXTENSION;
